@@ -29,9 +29,7 @@ namespace mh {
         x.name = hc.name;
         for ( size_t i = 0; i < hc.nvariants; ++i )
             x.variants.push_back( hc.variants[i].name );
-        x.cfg = { { "prefill", 0, ( 1 << ( hc.max_key + 1 )) - 1 }, { "quiesce", 0, 2 }, { "hold", 0, 2 } };
-        if ( hc.max_key > 5 )
-            x.cfg[0].hi = 63;
+        x.cfg = { { "prefill", 0, hc.max_key > 5 ? 63 : ( 1 << ( hc.max_key + 1 )) - 1 }, { "quiesce", 0, 2 }, { "hold", 0, 2 } };
         for ( auto const& e : extra_cfg )
             x.cfg.push_back( e );
         int km = hc.max_key;
